@@ -479,6 +479,9 @@ def rule_PAD(tree: Tree) -> RuleResult:
 
 
 # ------------------------------------------------------------------------------------------ T10
+GUARDS: Dict[str, Any] = {}
+
+
 def _slice_forms(fn: ast.FunctionDef, base: str, env: Dict[str, Any]) -> List[Tuple[str, Any, Any, ast.AST]]:
     """Straight-line symbolic walk over top-level statements: integer locals are kept as linear forms; every slice / index of `base`
     is reported as (target name, lo, hi | None, node)."""
@@ -498,6 +501,10 @@ def _slice_forms(fn: ast.FunctionDef, base: str, env: Dict[str, Any]) -> List[Tu
                             out.append((tgt, nf(x.slice, env), "idx", x))
                 if tgt and isinstance(st.targets[0], ast.Name):
                     v = st.value
+                    if isinstance(v, ast.IfExp) and try_fold(v.orelse) == 0:
+                        # `field if <inside the message> else 0`: the field's position is that of the guarded read; the guard is an obligation of its own
+                        GUARDS[tgt] = (v.test, dict(env))
+                        v = v.body
                     if isinstance(v, ast.Subscript) and dotted(v.value) == base and not isinstance(v.slice, ast.Slice):
                         env[tgt] = ("s", f"byte@{_fmt_lin(nf(v.slice, env))}")
                     elif isinstance(v, ast.Call) and dotted(v.func) == "int.from_bytes" and v.args and isinstance(v.args[0], ast.Subscript) and dotted(v.args[0].value) == base:
@@ -561,6 +568,26 @@ def rule_T10(tree: Tree) -> RuleResult:
                                       f"ServerHello field `{k}` is read from record.binary{list(got.get(k, ('?', '?')))}, the layout (header 4, version 2, random 32, "
                                       f"sid_len 1, sid, suite 2, compression 1, ext_len 2, extensions) puts it at {list(w)} (byte@0x26 = session-id length)", m.line(sh.node)))
     r.sample({"ServerHello fields": got})
+    # the extension block is optional: its length field is read only if it lies inside the ServerHello message (4 + handshake length), otherwise the bytes belong
+    # to the next handshake message of the record
+    r.instances += 1
+    g = GUARDS.get("extensions_length")
+    ok = False
+    if g is not None and isinstance(g[0], ast.Compare) and len(g[0].ops) == 1 and isinstance(g[0].ops[0], (ast.Lt, ast.LtE)):
+        envg = g[1]
+        lhs, rhs = nf(g[0].left, envg), nf(g[0].comparators[0], envg)
+        end = nf(ast.parse("4 + H", mode="eval").body, {"H": ("s", "int@1")})
+        if rhs == nf(ast.parse("4 + int.from_bytes(record.binary[1:4], 'big')", mode="eval").body, {}):
+            rhs = end
+        lo = nf(ast.parse("S + 42", mode="eval").body, {"S": Sf})
+        if isinstance(g[0].ops[0], ast.Lt):
+            ok = rhs == end and lhs in (lo, nf(ast.parse("S + 43", mode="eval").body, {"S": Sf}))
+        else:
+            ok = rhs == end and lhs == nf(ast.parse("S + 44", mode="eval").body, {"S": Sf})
+    r.ob(ok, Finding("T10", "session:Session.handle_tls_server_hello:extensions-bounded",
+                     "the ServerHello extension block must be read only when it lies inside the message (offset of its length field < 4 + handshake length): a ServerHello "
+                     "without extensions that shares its record with the next message would otherwise take that message's bytes as extensions "
+                     "(0x0016 = encrypt-then-MAC changes the record layout)", m.line(sh.node)))
     # extension walk
     r.instances += 1
     loops = [n for n in body_walk(sh.node) if isinstance(n, ast.While)]
